@@ -22,6 +22,10 @@ func (e *executionContext) deferUntilPersisted(f func()) {
 }
 
 func (e *executionContext) AppendLog(ctx context.Context, log *ledger.Log) (*ledger.ChainedLog, chan struct{}, error) {
+	// every kind of write records its idempotency key on the log, otherwise a retry cannot be recognised
+	if e.parameters.IdempotencyKey != "" {
+		log = log.WithIdempotencyKey(e.parameters.IdempotencyKey)
+	}
 	if e.parameters.DryRun {
 		ret := make(chan struct{})
 		close(ret)
